@@ -22,7 +22,7 @@ MODELLED = ["evo/tools/file_interface.py:has_utf8_bom", "evo/tools/file_interfac
             "evo/tools/file_interface.py:read_tum_trajectory_file", "evo/tools/file_interface.py:write_tum_trajectory_file",
             "evo/tools/file_interface.py:read_kitti_poses_file", "evo/tools/file_interface.py:write_kitti_poses_file",
             "evo/tools/file_interface.py:read_euroc_csv_trajectory", "evo/tools/file_interface.py:load_transform_json",
-            "evo/tools/file_interface.py:load_transform", "evo/core/lie_algebra.py:is_sim3", "evo/core/lie_algebra.py:is_so3",
+            "evo/tools/file_interface.py:load_transform", "evo/tools/file_interface.py:save_res_file", "evo/core/lie_algebra.py:is_sim3", "evo/core/lie_algebra.py:is_so3",
             "evo/core/lie_algebra.py:sim3_scale", "evo/core/lie_algebra.py:sim3", "evo/core/transformations.py:quaternion_matrix",
             "evo/core/trajectory.py:xyz_quat_wxyz_to_se3_poses"]
 TMP = None
@@ -228,6 +228,57 @@ def gen_cases(ctx):
         if variant == "p" and r.random() < 0.2:
             text = tf.BOM + text
         yield {"kind": "read", "fmt": fmt, "variant": variant, "text": text, "label": d, "where": where}
+    # several defective rows whose column counts cancel (a + b = 2w, a + b + c = 3w, joined rows + blank rows); first row well-formed,
+    # every field numeric: nothing but the per-row column count reveals the defect
+    for k in range(700 if not th else 4000):
+        fmt = r.choice(["tum", "tum", "kitti", "euroc"])
+        nrows = r.choice([3, 4, 5, 8])
+        table = gen_table(r, fmt, nrows)
+        w = len(table[0])
+        g = r.choice([2, 2, 2, 3])
+        if nrows <= g:
+            table = gen_table(r, fmt, g + 1)
+            nrows, w = g + 1, len(table[0])
+        i = r.randint(1, nrows - g)                 # the group of rows that is re-partitioned (never the first row)
+        if g == 2:
+            a = (k % (2 * w + 1)) if k < 3 * (2 * w + 1) else r.randint(0, 2 * w)   # all pairs a + b = 2w are enumerated first
+            sizes = [a, 2 * w - a]
+        else:
+            a = r.randint(0, 3 * w)
+            b = r.randint(0, 3 * w - a)
+            sizes = [a, b, 3 * w - a - b]
+        if all(x == w for x in sizes):
+            sizes = [w - 1, w + 1] + sizes[2:]
+        flat = [t for row in table[i:i + g] for t in row]
+        parts, pos = [], 0
+        for x in sizes:
+            parts.append(flat[pos:pos + x])
+            pos += x
+        if r.random() < 0.3:
+            r.shuffle(parts)
+        rows = table[:i] + parts + table[i + g:]
+        if r.random() < 0.25 and len(rows) > i + g:  # the defective rows need not be neighbours
+            rows[i + 1], rows[-1] = rows[-1], rows[i + 1]
+        delim = "," if fmt == "euroc" else " "
+        lines_ = [delim.join(row) for row in rows]
+        eol = r.choice(["\n", "\r\n"])
+        text = eol.join(lines_) + (eol if (lines_[-1] == "" or r.random() < 0.8) else "")   # a blank last row needs its own line end
+        variant = r.choice(["h", "p"])
+        yield {"kind": "read", "fmt": fmt, "variant": variant, "text": text, "label": "cancelling-row-lengths", "where": [i, sizes]}
+    # trajectory members of result archives evo writes (>= 2 trajectories, mostly decreasing text length), read by the model and the reference reader
+    for k in range(120 if not th else 600):
+        cnt = r.choice([2, 2, 3, 4])
+        lens = sorted(r.sample([1, 2, 3, 4, 6, 9, 14], cnt), reverse=True)
+        if r.random() < 0.2:
+            r.shuffle(lens)
+        trajs = []
+        for j, n in enumerate(lens):
+            if r.random() < 0.6:
+                trajs.append(["t%d é" % j, "tum", {"stamps": sorted(rand_value(r, "stamp") for _ in range(n)),
+                                                  "xyz": [[rand_value(r, "p") for _ in range(3)] for _ in range(n)], "quat": [rand_quat(r) for _ in range(n)]}])
+            else:
+                trajs.append(["p%d" % j, "kitti", {"mats": [[[rand_value(r, "quat") for _ in range(3)] + [rand_value(r, "p")] for _ in range(3)] for _ in range(n)]}])
+        yield {"kind": "zipwritten", "trajs": trajs}
     # path-reuse histories: write f (BOM); read; rewrite f (no BOM); read; ... and the reverse
     for k in range(90 if not th else 500):
         fmt = r.choice(["tum", "kitti", "euroc"])
@@ -501,6 +552,22 @@ def run_impl(case):
         return impl_history(case)
     if k == "tfhistory":
         return impl_tfhistory(case)
+    if k == "zipwritten":
+        import zipfile
+        from evo.core import result
+        try:
+            res = result.Result()
+            for name, typ, d in case["trajs"]:
+                if typ == "tum":
+                    res.add_trajectory(name, PoseTrajectory3D(np.array(d["xyz"]), np.array(d["quat"]), np.array(d["stamps"])))
+                else:
+                    res.add_trajectory(name, PosePath3D(poses_se3=[np.array(m + [[0.0, 0.0, 0.0, 1.0]]) for m in d["mats"]]))
+            buf = io.BytesIO()
+            fi.save_res_file(buf, res)
+            with zipfile.ZipFile(io.BytesIO(buf.getvalue())) as z:
+                return {"status": "ok", "members": {n: z.read(n).decode("utf-8") for n in z.namelist() if n.endswith((".tum", ".kitti"))}}
+        except Exception as e:  # noqa
+            return {"status": "EXC:" + type(e).__name__, "msg": str(e)[:160], "members": {}}
     if k == "read":
         return call_reader(case["fmt"], case["variant"], case["text"])
     if k == "written":
@@ -541,6 +608,8 @@ def model_lines(case, impl):
     k = case["kind"]
     if k == "history":
         return [f"C07 {case['fmt']} p {tf.hexs((tf.BOM if st['bom'] else '') + st['text'])}" for st in case["steps"]]
+    if k == "zipwritten":
+        return [f"C07 {typ} h {tf.hexs(impl['members'].get(name + '.' + typ, ''))}" for name, typ, _ in case["trajs"]]
     if k == "tfhistory":
         return [model_lines({"kind": "tfmat", "mat": st["mat"]}, None)[0] for st in case["steps"]]
     if k == "read":
@@ -604,6 +673,20 @@ def judge(ctx, case, impl, outs):
         return judge_history(ctx, case, impl, outs)
     if case["kind"] == "tfhistory":
         return judge_tfhistory(ctx, case, impl, outs)
+    if case["kind"] == "zipwritten":
+        if impl["status"] != "ok":
+            ctx.fail(case, "archive-writer-crashed", f"{impl['status']}: {impl.get('msg')}")
+        for (name, typ, d), m in zip(case["trajs"], outs):
+            sub = {"kind": "written", "fmt": typ, **d}
+            before = (len(ctx.failures), len(ctx.mismatches))
+            judge_written(ctx, sub, {"text": impl["members"].get(name + "." + typ, "")}, [m], report=case)
+            for lst in (ctx.failures[before[0]:], ctx.mismatches[before[1]:]):
+                for _, f in lst:
+                    key = "detail" if "detail" in f else "what"
+                    f[key] = f"archive member {name}.{typ}: " + str(f[key])
+        texts = [len(impl["members"].get(n + "." + t, "")) for n, t, _ in case["trajs"]]
+        ctx.count("branch", "zipwritten:" + ("decreasing-text" if any(b < a for a, b in zip(texts, texts[1:])) else "non-decreasing-text"))
+        return
     {"read": judge_read, "written": judge_written, "tfjson": judge_tfjson, "tfmat": judge_tfmat}[case["kind"]](ctx, case, impl, outs)
 
 
@@ -695,7 +778,8 @@ def first_diff(a, b):
     return ["len", len(a), len(b)]
 
 
-def judge_written(ctx, case, impl, outs):
+def judge_written(ctx, case, impl, outs, report=None):
+    rc = report if report is not None else case
     fmt = case["fmt"]
     width = 12 if fmt == "kitti" else 8
     text = impl["text"]
@@ -707,20 +791,20 @@ def judge_written(ctx, case, impl, outs):
     wantb = [[tf.bits(v) for v in row] for row in want]
     ref = tf.ref_read(fmt, text, False)
     if ref == "reject":
-        ctx.fail(case, "written-file-not-conventional", "the reference reader rejects the file evo wrote: " + repr(text[:200]))
+        ctx.fail(rc, "written-file-not-conventional", "the reference reader rejects the file evo wrote: " + repr(text[:200]))
     elif [[tf.bits(v) for v in row] for row in ref] != wantb:
-        ctx.fail(case, "written-file-other-poses", "the reference reader finds other values/slots than the trajectory holds: %s"
+        ctx.fail(rc, "written-file-other-poses", "the reference reader finds other values/slots than the trajectory holds: %s"
                  % (first_diff([[tf.bits(v) for v in row] for row in ref], wantb),))
     m = outs[0]
     if m in ("E_FORMAT", "E_RANGE"):
-        ctx.mismatch(case, f"model reader answers {m} on a file evo wrote", text[:200], m)
+        ctx.mismatch(rc, f"model reader answers {m} on a file evo wrote", text[:200], m)
     else:
         rows = parse_rows(m, width)
         ctx.count("branch", "written:model-read")
         if rows != [[frac(v) for v in row] for row in want]:
-            ctx.mismatch(case, "model reader finds other values in the file evo wrote",
+            ctx.mismatch(rc, "model reader finds other values in the file evo wrote",
                          first_diff(rows, [[frac(v) for v in row] for row in want]), None)
-    ctx.record(case, len(want) > 1)
+    ctx.record(rc, len(want) > 1)
 
 
 def parse_json_ref(text):
@@ -863,6 +947,11 @@ def evaluate(ctx, cases):
 
 
 def shrink(case):
+    if case["kind"] == "zipwritten":
+        if len(case["trajs"]) > 2:
+            for i in range(len(case["trajs"])):
+                yield {"kind": "zipwritten", "trajs": case["trajs"][:i] + case["trajs"][i + 1:]}
+        return
     if case["kind"] in ("history", "tfhistory"):
         n = len(case["steps"])
         if n > 2:
